@@ -75,6 +75,7 @@ CONVERTERS = ['ApprovalToSimpleVotes', 'RankedToFirstPreference', 'RankedToFirst
               'VoteTotals', 'ConstituencyTotals', 'SubsettedVotes', 'RoundedVotes', 'Chain']
 SCORERS = ['Borda', 'Dowdall', 'Geometric', 'ModifiedBorda', 'FixedTop', 'SequenceBased']
 SUBSETTERS = ['simple', 'approval', 'ranked', 'score']
+SUBSET_CONTAINERS = ['list', 'tuple', 'set', 'frozenset', 'dict', 'list_dup']
 ROUND_METHODS = ['ROUND_HALF_UP', 'ROUND_HALF_DOWN', 'ROUND_HALF_EVEN', 'ROUND_DOWN', 'ROUND_UP', 'ROUND_CEILING', 'ROUND_FLOOR',
                  'ROUND_05UP']
 # converters of the property's quantifier that have no Lean model (the oracle still covers them)
@@ -101,6 +102,14 @@ REQUIRED_COUNTERS = (['conv:' + c for c in CONVERTERS] + ['scorer:' + s for s in
                      + ['rounded_num:' + m + '_chain' for m in ['auto', 'frac', 'dec', 'dec_all', 'float']]
                      + ['rounded_half_%s_digit:%s' % (p, m) for p in ('even', 'odd') for m in ('auto', 'frac', 'dec', 'dec_all', 'float')]
                      + ['rounded_decimals:%d' % d for d in (-1, 0, 1, 2, 3)]
+                     + ['empty_profile:' + c for c in CONVERTERS]
+                     + ['only_empty_ballots:' + c for c in CONVERTERS if c not in ('InvertedSimpleVotes', 'IndividualToPartyVotes',
+                                                                                  'GroupVotesByParty')]
+                     + ['subset:%s:%s' % (r, k) for r in ('empty', 'full', 'superset', 'partial') for k in SUBSETTERS]
+                     + ['subset_deep:' + r for r in ('empty', 'full', 'superset')]
+                     + ['subset_container:' + c for c in SUBSET_CONTAINERS]
+                     + ['nested_inner:ranked', 'nested_inner:approval', 'shared_image_3plus', 'two_refused_ballots',
+                        'args:empty', 'args:only_empty', 'args:normal']
                      + ['round:' + m for m in ROUND_METHODS])
 RULE = ('2-5 candidates (5-8 in the `big` share) with multi-character names; ranked ballots with truncation, shared ranks (incl. one-element and empty '
         'sets), repeated candidates and the empty ballot; approval and score ballots incl. empty ones; weights from small integers, '
@@ -270,6 +279,13 @@ def key_py(kind, k, ctx):
     raise ValueError(kind)
 
 
+INNER = ['simple']      # vote type inside a constituency dictionary of the case being processed (set by impl/oracle/describe)
+
+
+def _set_inner(case):
+    INNER[0] = case.get('inner', 'simple') if isinstance(case, dict) else 'simple'
+
+
 def deep_py(t, depth, ctx):
     if depth == 0:
         return {ctx.cand(c): py_num(w, ctx.dec) for c, w in t}
@@ -280,7 +296,7 @@ def prof_py(kind, prof, ctx, depth=0):
     if kind == 'deep':
         return deep_py(prof, depth, ctx)
     if kind == 'nested':
-        return {ctx.dname(d): {ctx.cand(c): py_num(w, ctx.dec) for c, w in dv} for d, dv in prof}
+        return {ctx.dname(d): {key_py(INNER[0], c, ctx): py_num(w, ctx.dec) for c, w in dv} for d, dv in prof}
     return {key_py(kind, k, ctx): py_num(w, ctx.dec) for k, w in prof}
 
 
@@ -426,7 +442,11 @@ def build_conv(spec, ctx):
             sub = {'simple': vv.SimpleSubsetter, 'approval': vv.ApprovalSubsetter, 'ranked': vv.RankedSubsetter,
                    'score': vv.ScoreSubsetter}[spec['subsetter']]()
             inner = vc.SubsettedVotes(sub, **_kw(spec, depth=(spec['depth'], 0)))
-        return _WithSubset(inner, [ctx.cand(i) for i in spec['subset']])
+        lst = [ctx.cand(i) for i in spec['subset']]
+        cont = spec.get('subset_container', 'list')       # `subset: Collection[Candidate]`
+        subset = {'list': lst, 'tuple': tuple(lst), 'set': set(lst), 'frozenset': frozenset(lst),
+                  'dict': dict.fromkeys(lst, 1), 'list_dup': lst + lst[::-1]}[cont]
+        return _WithSubset(inner, subset)
     if c == 'RoundedVotes':
         import decimal
         if 'round_method' not in spec:
@@ -438,6 +458,7 @@ def build_conv(spec, ctx):
 
 
 def impl(case):
+    _set_inner(case)
     if case['op'] == 'util':
         import votelib.util as vu
         ctx = Ctx({'c': 'none'}, names=case.get('names', 'str'))
@@ -453,9 +474,31 @@ def impl(case):
         err = {'err': err_name(e)}
         return {'A': err, 'B': err, 'AB': err, 'singles': [err for _ in case['singles']]}
 
+    alias = set()
+    live = []                     # every dictionary the object returned, with a snapshot taken at return time
+    out_ids = set()
+    empty_chain = case['conv']['c'] == 'Chain' and not case['conv']['cs']
+    state0 = _state(conv)
+
     def one(prof):
         votes = prof_py(case['kind'], prof, ctx, case.get('depth', 0))
-        return guarded(lambda: enc_dict(conv.convert(votes), ctx))
+        before = _snap(votes)
+        in_ids = _dict_ids(votes)
+
+        def run():
+            res = conv.convert(votes)
+            ids = _dict_ids(res)
+            if ids & in_ids and not empty_chain:
+                alias.add('output_aliases_input')
+            if ids & out_ids:
+                alias.add('output_aliases_earlier_output')
+            out_ids.update(ids)
+            live.append((res, _snap(res)))
+            return enc_dict(res, ctx)
+        r = guarded(run)
+        if _snap(votes) != before:
+            alias.add('input_mutated')
+        return r
     if case.get('warm'):
         # a differently configured object of the same class is used first (class- or module-level state)
         try:
@@ -468,7 +511,47 @@ def impl(case):
     order = {'desc': ['AB', 'A', 'B', 'singles'], 'asc': ['singles', 'B', 'A', 'AB']}.get(case.get('order'), ['A', 'B', 'AB', 'singles'])
     for nm in order:
         res[nm] = [one(s) for s in case['singles']] if nm == 'singles' else one(case[nm])
-    return {'A': res['A'], 'B': res['B'], 'AB': res['AB'], 'singles': res['singles']}
+    for obj, snap in live:
+        if _snap(obj) != snap:
+            alias.add('earlier_output_changed')
+    if _state(conv) != state0:
+        alias.add('converter_state_changed')
+    return {'A': res['A'], 'B': res['B'], 'AB': res['AB'], 'singles': res['singles'], 'alias': sorted(alias)}
+
+
+def _snap(x):
+    """copy of a (nested) dictionary that keeps the key objects themselves"""
+    if isinstance(x, dict):
+        return {k: _snap(v) for k, v in x.items()}
+    return x
+
+
+def _dict_ids(x):
+    out = set()
+    if isinstance(x, dict):
+        out.add(id(x))
+        for v in x.values():
+            out |= _dict_ids(v)
+    return out
+
+
+def _state(obj, depth=0):
+    """the configuration of a converter, recursively, private attributes included; Borda's n_candidates / _scores are
+    documented per-call state (set_n_candidates) and left out"""
+    if depth > 6:
+        return '...'
+    if isinstance(obj, (list, tuple)):
+        return [_state(x, depth + 1) for x in obj]
+    if isinstance(obj, (set, frozenset)):
+        return sorted((repr(_state(x, depth + 1)) for x in obj))
+    if isinstance(obj, dict):
+        return sorted(((repr(_state(k, depth + 1)), _state(v, depth + 1)) for k, v in obj.items()), key=repr)
+    if isinstance(obj, (int, str, Fraction, Decimal, float, bool, type(None))):
+        return repr(obj)
+    if hasattr(obj, '__dict__') and not isinstance(obj, type) and not callable(obj):
+        skip = ('n_candidates', '_scores') if type(obj).__name__ == 'Borda' else ()
+        return (type(obj).__name__, {k: _state(v, depth + 1) for k, v in vars(obj).items() if k not in skip})
+    return type(obj).__name__ + '@' + str(id(obj))
 
 
 def _ctx(case):
@@ -546,7 +629,7 @@ def h_prof(kind, prof, depth=0):
     if kind == 'deep':
         return h_deep(prof, depth)
     if kind == 'nested':
-        return [(d, [(c, num(w)) for c, w in dv]) for d, dv in prof]
+        return [(d, [(h_key(INNER[0], c), num(w)) for c, w in dv]) for d, dv in prof]
     return [(h_key(kind, k), num(w)) for k, w in prof]
 
 
@@ -775,7 +858,7 @@ def ref_convert(spec, kind, prof):
         for d, dv in prof:
             for k, w in dv:
                 add(out, k, w)
-        return 'simple', out
+        return INNER[0], out
     if c == 'ConstituencyTotals':
         return 'districts', {d: sum((w for _, w in dv), Fraction(0)) for d, dv in prof}
     if c == 'SubsettedVotes' and spec['depth'] == 1:
@@ -939,6 +1022,7 @@ def additive_applies(case):
 
 
 def oracle(case, obs):
+    _set_inner(case)
     if case['op'] == 'util':
         return oracle_util(case, obs)
     spec, kind = case['conv'], case['kind']
@@ -955,6 +1039,12 @@ def oracle(case, obs):
         g = drop_zeros(canon_out(oab))
         if s != g:
             out.append(('additivity', f'convert(A+B) = {json.dumps(g)} but convert(A) + convert(B) = {json.dumps(s)}'))
+    for pr in obs.get('alias', []):
+        out.append((pr, {'input_mutated': 'convert() changed the dictionary it was given',
+                         'output_aliases_input': 'the returned dictionary shares a dict object with the input',
+                         'output_aliases_earlier_output': 'the returned dictionary shares a dict object with one returned earlier',
+                         'earlier_output_changed': 'a dictionary returned earlier changed during later calls',
+                         'converter_state_changed': "the converter's own attributes changed during convert()"}.get(pr, pr)))
     # one clause code once
     seen, res = set(), []
     for cl, d in out:
@@ -1015,6 +1105,8 @@ def model_line(case):
     c = strip_case(case)
     if case['op'] == 'util':
         return c
+    if case['kind'] == 'nested' and case.get('inner', 'simple') != 'simple':
+        c['kind'] = 'nested_' + case['inner']
     return c
 
 
@@ -1027,6 +1119,7 @@ def nontrivial(case, obs):
 def describe(case):
     if case['op'] == 'util':
         return f"util.all_rankings({prof_py('ranked', case['votes'], Ctx({'c': 'none'}, names=case.get('names', 'str')))!r})"
+    _set_inner(case)
     ctx = _ctx(case)
     dp = case.get('depth', 0)
     return (f"{json.dumps(case['conv'])}.convert on A={prof_py(case['kind'], case['A'], ctx, dp)!r}, "
@@ -1096,7 +1189,8 @@ DEC_OK = ('RankedToFirstPreference', 'RankedToFirstNPreferences', 'RankedToPrese
           'ConstituencyTotals', 'InvertedSimpleVotes', 'InvertedApprovalVotes', 'IndividualToPartyVotes', 'GroupVotesByParty')
 
 
-def finish(conv, kind, A, B, tags, dec=False):
+def finish(conv, kind, A, B, tags, dec=False, inner='simple'):
+    INNER[0] = inner
     depth = conv.get('depth', 0) if kind == 'deep' else 0
     if kind == 'deep':
         A, B = merge_deep([], A, depth), merge_deep([], B, depth)
@@ -1112,6 +1206,9 @@ def finish(conv, kind, A, B, tags, dec=False):
         singles = [[[k, '1']] for k, _ in AB][:6]
     case = {'op': 'convert', 'conv': conv, 'kind': kind, 'A': A, 'B': B, 'AB': AB, 'singles': singles,
             '_tags': list(tags)}
+    if inner != 'simple':
+        case['inner'] = inner
+        case['_tags'].append('nested_inner:' + inner)
     if kind == 'deep':
         case['depth'] = depth
         case['_tags'].append(f'subset_depth:{depth}')
@@ -1363,12 +1460,21 @@ def _rnd_spec(rng, name, m):
         return {'c': name}, 'nested'
     if name == 'SubsettedVotes':
         k = rng.choice(SUBSETTERS)
-        sub = rng.sample(range(m + 1), rng.randint(0, m))
+        r = rng.random()
+        if r < 0.12:
+            sub = []
+        elif r < 0.24:
+            sub = list(range(m))                                    # every candidate
+        elif r < 0.36:
+            sub = list(range(m + 2))                                # a superset: candidates nobody voted for
+        else:
+            sub = rng.sample(range(m + 1), rng.randint(0, m))
         if rng.random() < 0.3 and k == 'simple':
             dp = rng.choice([1, 1, 2, 2, 3])
-            return {'c': name, 'subsetter': k, 'subset': sub, 'depth': dp}, 'nested' if dp == 1 else 'deep'
-        return {'c': name, 'subsetter': k, 'subset': sub, 'depth': 0}, {'simple': 'simple', 'approval': 'approval',
-                                                                         'ranked': 'ranked', 'score': 'score'}[k]
+            return {'c': name, 'subsetter': k, 'subset': sub, 'depth': dp, 'subset_container': rng.choice(SUBSET_CONTAINERS)}, \
+                'nested' if dp == 1 else 'deep'
+        return {'c': name, 'subsetter': k, 'subset': sub, 'depth': 0, 'subset_container': rng.choice(SUBSET_CONTAINERS)}, \
+            {'simple': 'simple', 'approval': 'approval', 'ranked': 'ranked', 'score': 'score'}[k]
     if name == 'RoundedVotes':
         sp = {'c': name, 'decimals': rng.choice([0, 1, 1, 2, 2, 3, 3, 0, 1, 2, -1])}
         if rng.random() < 0.6:
@@ -1445,13 +1551,16 @@ def rnd_deep(rng, m, depth):
     return [[d, rnd_deep(rng, m, depth - 1)] for d in range(rng.randint(1, 3)) if rng.random() < 0.75]
 
 
-def rnd_nested(rng, m):
+def rnd_nested(rng, m, inner='simple'):
     nd = rng.randint(1, 3)
     A, B = [], []
     for d in range(nd):
         for half in (A, B):
             if rng.random() < 0.75:
-                cs = rng.sample(range(m), rng.randint(0, m))
+                if inner == 'simple':
+                    cs = rng.sample(range(m), rng.randint(0, m))
+                else:
+                    cs = rnd_ballots(rng, inner, m, rng.randint(0, 4))
                 half.append([d, [[c, rnd_weight(rng)] for c in cs]])
     return A, B
 
@@ -1476,10 +1585,11 @@ def gen_case(rng, name=None, tags=(), big=False):
         return finish(spec, kind, rnd_deep(rng, m, spec['depth']), rnd_deep(rng, m, spec['depth']), tags,
                       dec=rng.random() < 0.3)
     if kind == 'nested':
-        A, B = rnd_nested(rng, m)
+        inner = rng.choice(['simple', 'simple', 'ranked', 'approval']) if spec['c'] in ('VoteTotals', 'ConstituencyTotals') else 'simple'
+        A, B = rnd_nested(rng, m, inner)
         if any(s['c'] == 'RoundedVotes' for s in _flat(spec)):
             A, B = cap_counts(kind, A), cap_counts(kind, B)
-        return finish(spec, kind, A, B, tags, dec=rng.random() < 0.3)
+        return finish(spec, kind, A, B, tags, dec=rng.random() < 0.3, inner=inner)
     n = rng.randint(6, 14) if big else rng.randint(1, 6)
     ballots = rnd_ballots(rng, kind, m, n)
     split_frac = any(s['c'] == 'ApprovalToSimpleVotes' and s['split'] for s in _flat(spec))
@@ -1630,6 +1740,46 @@ def retag(case):
                     x = w * 10 ** d
                     if x.denominator == 2 and typed(w):
                         tags.add('rounded_half_%s_digit:%s' % ('even' if (abs(x.numerator) // 2) % 2 == 0 else 'odd', mode))
+    cands = _case_candidates(case)
+    empty_prof = not case['AB']
+    only_empty = bool(case['AB']) and _only_empty(case)
+    if empty_prof:
+        tags.add('empty_profile:' + spec['c'])
+    if only_empty:
+        tags.add('only_empty_ballots:' + spec['c'])
+    if kind not in ('nested', 'deep') and spec['c'] in ONE_ITEM and not spec.get('depth'):
+        try:
+            INNER[0] = 'simple'
+            hp = h_prof(kind, case['AB'])
+            U = universe(kind, hp)
+            cnt = {}
+            for b, _ in hp:
+                for k in ref_image(spec, kind, b, U)[0]:
+                    kk = jkey(enc_h(k))
+                    cnt[kk] = cnt.get(kk, 0) + 1
+            if any(v >= 3 for v in cnt.values()):
+                tags.add('shared_image_3plus')
+        except Reject:
+            pass
+    for s in _flat(spec):
+        if s['c'] == 'RankedToPositionalVotes' and s['scorer']['s'] == 'Borda' and kind == 'ranked':
+            for nm in ('A', 'B', 'AB'):
+                hp = h_prof(kind, case[nm])
+                U = ranked_universe(hp)
+                if sum(1 for b, _ in hp if len(b) > len(U)) >= 2:
+                    tags.add('two_refused_ballots')
+        if s['c'] in ('IndividualToPartyVotes', 'GroupVotesByParty') and s['independents'] == 'error' and kind == 'simple':
+            mapped = {c for c, _ in s['aff']}
+            if len({k for k, _ in case['AB']} - mapped) >= 2:
+                tags.add('two_refused_ballots')
+        if s['c'] == 'SubsettedVotes':
+            S = set(s['subset'])
+            rel = 'empty' if not S else 'full' if S == cands and cands else 'superset' if S > cands and cands else \
+                'disjoint' if not (S & cands) else 'partial'
+            tags.add('subset:%s:%s' % (rel, s['subsetter']))
+            if s['depth'] >= 1:
+                tags.add('subset_deep:' + rel)
+            tags.add('subset_container:' + s.get('subset_container', 'list'))
     for s in _flat(spec):
         if s['c'] == 'SubsettedVotes' and not s['subset']:
             tags.add('empty_subset')
@@ -1672,6 +1822,147 @@ def retag(case):
     # the converter raised on one conversion and is used again afterwards
     case['_tags'] = sorted(tags)
     return case
+
+
+def _case_candidates(case):
+    kind = case['kind']
+    out = set()
+
+    def key_cands(k, knd):
+        if knd == 'simple':
+            out.add(k)
+        elif knd == 'ranked':
+            for it in k:
+                out.update(it['set'] if isinstance(it, dict) else [it])
+        elif knd == 'approval':
+            out.update(k['set'])
+        elif knd == 'score':
+            out.update(c for c, _ in k['set'])
+    if kind == 'deep':
+        for _, kv in deep_leaves(case['AB'], case.get('depth', 0)):
+            out.add(kv[0])
+    elif kind == 'nested':
+        for _, dv in case['AB']:
+            for k, _ in dv:
+                key_cands(k, case.get('inner', 'simple'))
+    else:
+        for k, _ in case['AB']:
+            key_cands(k, kind)
+    return out
+
+
+def _only_empty(case):
+    """a non-empty profile all of whose ballots (constituency dictionaries) are empty"""
+    kind = case['kind']
+    if kind == 'ranked':
+        return all(k == [] for k, _ in case['AB'])
+    if kind in ('approval', 'score'):
+        return all(k['set'] == [] for k, _ in case['AB'])
+    if kind == 'nested':
+        return all(dv == [] for _, dv in case['AB'])
+    if kind == 'deep':
+        return not list(deep_leaves(case['AB'], case.get('depth', 0)))
+    return False
+
+
+def config_specs():
+    """one specification per converter configuration of the quantifier: (spec, input kind, inner kind)"""
+    out = []
+    for split_ in (False, True):
+        out.append(({'c': 'ApprovalToSimpleVotes', 'split': split_}, 'approval', 'simple'))
+    out += [({'c': 'RankedToFirstPreference'}, 'ranked', 'simple'), ({'c': 'RankedToFirstNPreferences', 'n': 2}, 'ranked', 'simple'),
+            ({'c': 'RankedToPresenceCounts'}, 'ranked', 'simple'), ({'c': 'RankedToApprovalVotes'}, 'ranked', 'simple')]
+    for sc in ({'s': 'Borda', 'base': 1}, {'s': 'Borda', 'base': 0}, {'s': 'Dowdall'}, {'s': 'Geometric', 'base': 3}, {'s': 'ModifiedBorda'},
+               {'s': 'FixedTop', 'top': 2}, {'s': 'SequenceBased', 'sequence': ['5', '3']}):
+        out.append(({'c': 'RankedToPositionalVotes', 'scorer': sc}, 'ranked', 'simple'))
+    for ab in (True, False):
+        out.append(({'c': 'RankedToCondorcetVotes', 'unranked_at_bottom': ab}, 'ranked', 'simple'))
+    for uv in (None, '0'):
+        out.append(({'c': 'ScoreToRankedVotes', 'unscored_value': uv}, 'score', 'simple'))
+    out += [({'c': 'ScoreToApprovalVotesThreshold', 'threshold': '1'}, 'score', 'simple'), ({'c': 'InvertedSimpleVotes'}, 'simple', 'simple'),
+            ({'c': 'InvertedApprovalVotes'}, 'approval', 'simple')]
+    for conv in ('IndividualToPartyVotes', 'GroupVotesByParty'):
+        for mode in ('aggregate', 'keep', 'ignore', 'error'):
+            out.append(({'c': conv, 'aff': [[0, 1]], 'independents': mode, 'affiliation': 'candidacy_for'}, 'simple', 'simple'))
+    for inner in ('simple', 'ranked', 'approval'):
+        out += [({'c': 'VoteTotals'}, 'nested', inner), ({'c': 'ConstituencyTotals'}, 'nested', inner)]
+    for k in SUBSETTERS:
+        for sub in ([], [0, 1, 2], [0, 1, 2, 7, 8]):
+            out.append(({'c': 'SubsettedVotes', 'subsetter': k, 'subset': sub, 'depth': 0, 'subset_container': 'list'}, k, 'simple'))
+    for dp, kind in ((1, 'nested'), (2, 'deep')):
+        for sub in ([], [0, 1, 2], [0, 1, 2, 7, 8]):
+            out.append(({'c': 'SubsettedVotes', 'subsetter': 'simple', 'subset': sub, 'depth': dp, 'subset_container': 'set'}, kind, 'simple'))
+    for meth in (None, 'ROUND_DOWN'):
+        for kind in ('simple', 'ranked', 'approval'):
+            sp = {'c': 'RoundedVotes', 'decimals': 1}
+            if meth:
+                sp['round_method'] = meth
+            out.append((sp, kind, 'simple'))
+    out += [({'c': 'Chain', 'cs': []}, 'simple', 'simple'),
+            ({'c': 'Chain', 'cs': [{'c': 'RankedToApprovalVotes'}, {'c': 'ApprovalToSimpleVotes', 'split': False}]}, 'ranked', 'simple'),
+            ({'c': 'Chain', 'cs': [{'c': 'ScoreToRankedVotes', 'unscored_value': '0'}, {'c': 'RankedToCondorcetVotes', 'unranked_at_bottom': True}]},
+             'score', 'simple'),
+            ({'c': 'Chain', 'cs': [{'c': 'VoteTotals'}, {'c': 'RoundedVotes', 'decimals': 0}]}, 'nested', 'simple')]
+    return out
+
+
+def sample_profile(kind, inner, which):
+    """(A, B) of the given input kind: 'empty' = both empty, 'only_empty' = only empty ballots, 'normal' = three candidates"""
+    def nest(x, y):
+        return ([[0, x]], [[0, y], [1, []]])
+    if which == 'empty':
+        return [], []
+    base = {'ranked': ([[[], '2']], [[[], '3']]), 'approval': ([[{'set': []}, '2']], [[{'set': []}, '3']]),
+            'score': ([[{'set': []}, '2']], [[{'set': []}, '3']])}
+    normal = {'ranked': ([[[0, 1, 2], '2'], [[{'set': [0, 1]}, 2], '1']], [[[0, 1, 2], '3'], [[2, 0], '1/2'], [[], '1']]),
+              'approval': ([[{'set': [0, 1]}, '2'], [{'set': [2]}, '1']], [[{'set': [0, 1]}, '3'], [{'set': [0, 1, 2]}, '1/2']]),
+              'score': ([[{'set': [[0, '1'], [1, '1'], [2, '3']]}, '2']], [[{'set': [[0, '2'], [1, '0']]}, '3'], [{'set': [[2, '1']]}, '1']]),
+              'simple': ([[0, '2'], [1, '1']], [[0, '3'], [2, '1/2']])}
+    if kind == 'nested':
+        if which == 'only_empty':
+            return [[0, []]], [[0, []], [1, []]]
+        return nest(*normal[inner])
+    if kind == 'deep':
+        if which == 'only_empty':
+            return [[0, [[0, []]]]], [[0, []], [1, [[2, []]]]]
+        return [[0, [[0, normal['simple'][0]]]]], [[0, [[0, normal['simple'][1]], [1, [[1, '4']]]]]]
+    if which == 'only_empty':
+        return base.get(kind, ([], []))
+    return normal[kind]
+
+
+def directed_arguments(rng):
+    """checklist 10-12: every converter configuration on the empty profile, on a profile of only empty ballots and on a
+    normal one; SubsettedVotes with an empty / full / superset subset in every container type; rare events several times"""
+    for spec, kind, inner in config_specs():
+        for which in ('empty', 'only_empty', 'normal'):
+            if which == 'only_empty' and kind == 'simple':
+                continue
+            A, B = sample_profile(kind, inner, which)
+            for od in (False, 'desc'):
+                yield vary(finish(json.loads(json.dumps(spec)), kind, A, B, ['directed', 'args:' + which], inner=inner), rng,
+                           names='str', num='auto', order=od, warm=False)
+    for k in SUBSETTERS:
+        for cont in SUBSET_CONTAINERS:
+            for sub in ([], [0, 1, 2], [2, 0, 1, 8], [1]):
+                A, B = sample_profile(k, 'simple', 'normal')
+                yield vary(finish({'c': 'SubsettedVotes', 'subsetter': k, 'subset': sub, 'depth': 0, 'subset_container': cont}, k, A, B,
+                                  ['directed']), rng, names=rng.choice(NAME_KINDS), num='auto', order=False, warm=False)
+    # the same image three and four times; two refused ballots in one profile
+    yield vary(finish({'c': 'RankedToFirstPreference'}, 'ranked', [[[0, 1, 2], '2'], [[0, 2, 1], '1'], [[0], '5']],
+                      [[[0, 2], '3'], [[0, 1, 2], '1/2']], ['directed']), rng, names='str', num='auto', order=False, warm=False)
+    yield vary(finish({'c': 'RankedToApprovalVotes'}, 'ranked', [[[0, 1, 2], '2'], [[{'set': [0, 1, 2]}], '1'], [[2, 1, 0], '5']],
+                      [[[1, {'set': [0, 2]}], '3'], [[0, 1, 2], '1/2']], ['directed']), rng, names='str', num='auto', order=False, warm=False)
+    yield vary(finish({'c': 'ScoreToApprovalVotesThreshold', 'threshold': '2'}, 'score',
+                      [[{'set': [[0, '2'], [1, '1']]}, '2'], [{'set': [[0, '3']]}, '1']],
+                      [[{'set': [[0, '5'], [2, '0']]}, '3'], [{'set': [[0, '2'], [1, '0']]}, '4']], ['directed']),
+               rng, names='str', num='auto', order=False, warm=False)
+    yield vary(finish({'c': 'RankedToPositionalVotes', 'scorer': {'s': 'Borda', 'base': 1}}, 'ranked',
+                      [[[0, 0], '2'], [[0, 0, 0], '1']], [[[1, 1, 0, 1], '3'], [[0, 1, 0], '1']], ['directed']),
+               rng, names='str', num='auto', order=False, warm=False)
+    for conv in ('IndividualToPartyVotes', 'GroupVotesByParty'):
+        yield vary(finish({'c': conv, 'aff': [[0, 1]], 'independents': 'error', 'affiliation': 'candidacy_for'}, 'simple',
+                          [[0, '2'], [1, '1'], [2, '4']], [[3, '3'], [1, '1']], ['directed']), rng, names='str', num='auto', order=False, warm=False)
 
 
 def balanced(rng, per):
@@ -1937,6 +2228,7 @@ def directed(rng):
                  ['directed'], dec=True)
     yield from directed_dimensions(rng)
     yield from rounding_grid(rng)
+    yield from directed_arguments(rng)
     for votes in ([[[0, 1, 2], '2'], [[2], '1'], [[1, 3], '1/2']], [[[{'set': [1]}, 0], '1'], [[], '3'], [[2, 0, 1], '2']]):
         yield {'op': 'util', 'votes': votes, '_tags': ['util']}
 
@@ -2012,7 +2304,7 @@ def shrink_candidates(case):
         for i in range(len(h)):
             other = 'B' if half == 'A' else 'A'
             new = {half: h[:i] + h[i + 1:], other: case[other]}
-            yield _carry(case, finish(case['conv'], case['kind'], new['A'], new['B'], []))
+            yield _carry(case, finish(case['conv'], case['kind'], new['A'], new['B'], [], inner=case.get('inner', 'simple')))
     if case['conv']['c'] == 'Chain' and len(case['conv']['cs']) > 1:
         yield _carry(case, finish({'c': 'Chain', 'cs': case['conv']['cs'][:-1]}, case['kind'], case['A'], case['B'], []))
     for k in ('warm', 'order', 'names', 'num', 'dclash'):
@@ -2023,7 +2315,7 @@ def shrink_candidates(case):
 
 
 def _carry(old, new):
-    for k in ('names', 'order', 'warm', 'dclash'):
+    for k in ('names', 'order', 'warm', 'dclash', 'inner'):
         if k in old:
             new[k] = old[k]
     mode = old.get('num') or ('dec' if old.get('dec') else None)
